@@ -58,7 +58,7 @@ META["C05"] = {
              "abstractly interpreted over every small aliasing pattern of arguments and context, checking that the explicit "
              "substitution is injective on what stays live (no two live variables renamed to one name).",
     "design_ref": "DESIGN.md §3 R-TRAV/R-ANNOT/R-WIRE/R-SHAPE (+R-KEEP/R-PUSH), §4 C05",
-    "note": "Partial: exactness of environments on every path is not decided.",
+    "note": "R-LINSUBST (Call/Invoke/Let) and R-LINCTX (Switch/Create) decide exactness of the environment for these statement kinds over all small environments and annotations (layout taken by position by the code generator, exact free variables, distinct binders, renaming); the remaining kinds (literal, op, if, print, exit) only through the traversal/annotation rules.",
     "technique": "static analysis: field provenance, forward must-dataflow on MIR CFG, dominators, abstract interpretation of linearize over finite alias patterns",
 }
 META["C12"] = {
@@ -85,7 +85,7 @@ META["C04"] = {
              "finite and enumerated completely; R-IDCMP: no decision in the translation compares the numeric id of a name without its "
              "text (constructor/type names are identified by name). No test exercises core2axcut at all.",
     "design_ref": "DESIGN.md §4 C04 (R-SHAPE, R-SAMESRC, R-DECLSRC, chirality table), §3 R-ENUM/R-FRESH",
-    "note": "Partial: the right-hand side of each cut shape (which AxCut statement it becomes) is not decided.",
+    "note": "R-CUTVAR folds the eta-expansion of unknown cuts at a data and a codata type (switch on the producer side); R-USEALL: every by-value input of a translation function is used on every path. Partial: the right-hand side of each cut shape (which AxCut statement it becomes) is not decided.",
     "technique": "static analysis: abstract interpretation of MIR over finite domains, decision-region path enumeration, collection provenance",
 }
 META["C19"] = {
@@ -195,9 +195,13 @@ META["C15"] = {
              "zip, insert, look-up and Result-producing call site: the ways a single ill-typed edit can slip through are closed "
              "structurally rather than sampled by mutation of test programs.",
     "design_ref": "DESIGN.md §4 C15 (R-ZIP, R-DUP, R-NODUP, R-LOOKUP, R-RESULT)",
-    "note": "Rejection side only: that every well-typed program is accepted, and the type equality itself, are not decided. R-LOOKUP folds "
-            "lookup_var/lookup_covar over every context of up to 3 bindings (shadowing table).",
-    "technique": "static analysis: dominator/provenance rules on MIR call sites, must-dataflow typestate, call-graph panic inventory",
+    "note": "Mostly the rejection side: R-LOOKUP folds lookup_var/lookup_covar over every context of up to 3 bindings (shadowing table); "
+            "R-CHECKALL requires every accepting path of a check function to have looked at every term/type/argument part of the "
+            "construct (found and repaired: type arguments inside declarations were never checked). One acceptance-side rule: "
+            "R-INSTANCE - instance tables are consulted only after the instance was created or found (found and repaired: a "
+            "constructor or comatch at a type not instantiated yet was rejected as undefined). That every well-typed program is "
+            "accepted, and type equality itself, are otherwise not decided.",
+    "technique": "static analysis: dominator/provenance rules on MIR call sites, path-sensitive must-use dataflow per variant, must-pass-through (establishing blocks) reachability, abstract interpretation of the lookup functions, call-graph panic inventory",
 }
 META["C16"] = {
     "level": "Static agreement of two sibling tables (printer and grammar) over all node kinds and all their variant/Option/emptiness "
@@ -205,7 +209,8 @@ META["C16"] = {
              "zero-comparison confusion as known findings.",
     "design_ref": "DESIGN.md §4 C16 (R-PGRAM, R-LEX, R-TRAV/Print)",
     "note": "Narrow: token-level agreement; equality of trees over layouts and idempotence of printing are consequences under the "
-            "trusted layout engine, not enumerated.",
+            "trusted layout engine, not enumerated. R-LITFMT folds the literal printer on boundary literals and re-lexes the text with the "
+            "grammar's terminals.",
     "technique": "static analysis: abstract interpretation of Print impls into templates, grammar reader, longest-match lexer model",
 }
 
